@@ -35,6 +35,7 @@ func propC01(w *World, r *Run) {
 	ruleCommitBeforeAck(w, r, "C01.f")
 	ruleComposedSQL(w, r, "C01.f")
 	ruleComposedInMemory(w, r, "C01.f")
+	ruleOneStatement(w, r, "C01.g") // the statement Set runs replaces the row the next GetLatest reads
 }
 
 func propC02(w *World, r *Run) {
@@ -147,6 +148,7 @@ func propC20(w *World, r *Run) {
 	ruleInitBeforeUse(w, r, "C20.d")
 	ruleLabelArity(w, r, "C20.e")
 	ruleCommitBeforeAck(w, r, "C20.f")
+	ruleCounterStateLocked(w, r, "C20.g")
 }
 
 func init() {
@@ -208,6 +210,7 @@ func propC10(w *World, r *Run) {
 	ruleStrictInteger(w, r, "C10.f")
 	ruleParseBodyTotal(w, r, "C10.f", "C10.f")
 	ruleAdapter(w, r, "C10.i")
+	rulePooledBytesDontEscape(w, r, "C10.j")
 }
 
 func propC11(w *World, r *Run) {
@@ -237,6 +240,7 @@ func propC13(w *World, r *Run) {
 	ruleNoLeakedTx(w, r, "C13.g")
 	ruleFetchUnderCallersContext(w, r, "C13.h")
 	ruleNeverGivesUp(w, r, "C13.i")
+	rulePooledBytesDontEscape(w, r, "C13.j")
 }
 
 func init() {
@@ -264,6 +268,7 @@ func propC16(w *World, r *Run) {
 	ruleNotFoundExact(w, r, "C16.b")
 	ruleReturnIsStored(w, r, analyseUpdate(w, r), "C16.f")
 	ruleCommitBeforeAck(w, r, "C16.f")
+	rulePooledBytesDontEscape(w, r, "C16.g")
 }
 
 func init() {
@@ -378,4 +383,5 @@ func propC19(w *World, r *Run) {
 	}
 	sort.Strings(unb)
 	r.extra["io_ReadAll_sites_not_decided"] = unb
+	ruleNoUnboundedClient(w, r, "C19.m")
 }
